@@ -208,6 +208,26 @@ def stream(ctx):
                 yield specs, tyspec, loadcase.serialize(node), desc
             except Exception:       # noqa
                 continue
+    # a fixed family: Any / untyped parameters whose names start with an underscore
+    S, Q, M = loadcase.S, loadcase.Q, loadcase.M
+    fam = [{'name': 'P', 'kind': 'obj', 'bases': [], 'extra': False, 'registered': True,
+            'params': [{'name': 'x', 'type': 'int', 'required': True}]},
+           {'name': 'U', 'kind': 'obj', 'bases': [], 'extra': False, 'registered': True,
+            'params': [{'name': 'n', 'type': 'int', 'required': True}, {'name': '_meta', 'type': 'any', 'required': False},
+                       {'name': '_raw', 'type': None, 'required': False}, {'name': '_num', 'type': 'int', 'required': False}]}]
+    payload = M([(S('x'), S('1', 'int'))])
+    payload.tag = '!P'
+    for spot in ('_meta', '_raw', '_num'):
+        for wrap in (lambda p: p, lambda p: Q([p]), lambda p: M([(S('w'), p)])):
+            counter[0] += 1
+            key = 'k%d' % counter[0]
+            _base_spots[key] = spot
+            try:
+                yield fam, ('class', 'U'), loadcase.serialize(M([(S('n'), S('1', 'int')), (S(spot), S('1', 'int') if spot == '_num' else S('x'))])), 'base:' + key
+                yield fam, ('class', 'U'), loadcase.serialize(M([(S('n'), S('1', 'int')), (S(spot), wrap(encode.copy_tree(payload)))])), \
+                    'inject:' + key + '|any-param|' + spot
+            except Exception:       # noqa
+                continue
     for specs in (loadcase.gen_model(rnd, hooks=True) for _ in range(n_models)):
         names = [s['name'] for s in specs if s.get('registered', True)]
         if rnd.random() < 0.5:
